@@ -296,6 +296,17 @@ def carriers_ok(ops):
                 sent = json.loads(conn.sent[-1])['params'][0] if conn.sent else None
                 if r['tx'].serialize() != b_raw or sent != binascii.hexlify(a.serialize()).decode():
                     return False
+        from bitcoin.core import COutPoint, b2lx
+        ops2 = [COutPoint(bytes([k + 1]) * 32, k) for k in range(3)]
+        for unlock in (True, False):
+            conn = FakeConnection()
+            p = rpc.Proxy(service_url=URL, connection=conn)
+            conn.mode = 4
+            conn.body = b'{"result":true,"error":null,"id":1}'
+            p.lockunspent(unlock, ops2)
+            sent = json.loads(conn.sent[-1])['params']
+            if sent != [unlock, [{'txid': b2lx(o.hash), 'vout': o.n} for o in ops2]]:
+                return False
     except Exception:  # noqa
         return False
     return True
